@@ -74,16 +74,18 @@ fn gen_case(seed: u64, i: u64, corpus: &Corpus) -> (String, String, Vec<(String,
       (kind.into(), format!("{n}: {d}"), vec![(n, m)], true)
     }
     "std-mutation" => {
-      // one mutated file together with the whole std library so the checker goes deep
-      let (n, t) = pick_file(&mut rng);
-      let (m, d) = if rng.bool() { mutate::token_mutation(&t, &mut rng, 1) } else { mutate::range_mutation(&t, &t.clone(), &mut rng) };
-      let mut mods = vec![(n.clone(), m)];
-      for (sn, st) in &corpus.std {
-        if *sn != n {
-          mods.push((sn.clone(), st.clone()));
-        }
-      }
-      (kind.into(), format!("{n}+std: {d}"), mods, true)
+      // a broken standard-library module underneath an unmodified user module that depends on it
+      let (sn, st) = {
+        let f = &corpus.std[rng.below(corpus.std.len())];
+        (f.0.clone(), f.1.clone())
+      };
+      let nedits = 1 + rng.below(2);
+      let (m, d) = if rng.bool() { mutate::token_mutation(&st, &mut rng, nedits) } else { mutate::range_mutation(&st, &st.clone(), &mut rng) };
+      let (un, ut) = {
+        let f = &corpus.tests[rng.below(corpus.tests.len())];
+        (f.0.clone(), f.1.clone())
+      };
+      (kind.into(), format!("{un} over mutated {sn}: {d}"), vec![(un, ut), (sn, m)], true)
     }
     "multi-module" => {
       let k = 2 + rng.below(3);
@@ -113,12 +115,43 @@ fn gen_case(seed: u64, i: u64, corpus: &Corpus) -> (String, String, Vec<(String,
     }
     "ladder" => {
       let j = (i / KINDS.len() as u64) as usize;
-      let lk = mutate::LADDER_KINDS[j % mutate::LADDER_KINDS.len()];
-      let depths = [1usize, 2, 3, 5, 8, 16, 32, 64, 100, 128, 200, 256, 400, 1000, 4000, 10000];
-      let d = depths[(j / mutate::LADDER_KINDS.len()) % depths.len()];
-      let text = mutate::ladder(lk, d);
-      let in_bounds = d <= 256 && text.len() <= 8192;
-      (kind.into(), format!("{lk} depth {d} ({} bytes)", text.len()), single(text), in_bounds)
+      let nk = mutate::LADDER_KINDS.len();
+      let depths = [1usize, 2, 3, 5, 8, 16, 24, 32, 48, 64, 100, 128, 160, 200, 230, 256];
+      let deep = [512usize, 2000, 10000];
+      if j < nk * depths.len() {
+        let (lk, d) = (mutate::LADDER_KINDS[j % nk], depths[j / nk]);
+        let text = mutate::ladder(lk, d);
+        let in_bounds = text.len() <= 8192;
+        (kind.into(), format!("{lk} depth {d} ({} bytes)", text.len()), single(text), in_bounds)
+      } else if j < nk * depths.len() + nk * deep.len() {
+        let jj = j - nk * depths.len();
+        let (lk, d) = (mutate::LADDER_KINDS[jj % nk], deep[jj / nk]);
+        let text = mutate::ladder(lk, d);
+        (kind.into(), format!("{lk} depth {d} ({} bytes)", text.len()), single(text), false)
+      } else {
+        // mixed nesting: a random stack of different constructs, total depth <= 120
+        let d = 2 + rng.below(119);
+        let mut open = String::new();
+        let mut close = String::new();
+        for _ in 0..d {
+          let (o, c) = match rng.below(9) {
+            0 => ("(", ")"),
+            1 => ("{ ", " }"),
+            2 => ("if true { ", " } else { 0 }"),
+            3 => ("f(", ")"),
+            4 => ("(1, ", ")"),
+            5 => ("() -> ", ""),
+            6 => ("match a { X -> ", ", _ -> 0 }"),
+            7 => ("1 + ", " * 2"),
+            _ => ("a.b(", ").c"),
+          };
+          open.push_str(o);
+          close.insert_str(0, c);
+        }
+        let text = format!("class Main {{ function main(): unit = {{ let x = {open}1{close}; }} }}");
+        let in_bounds = text.len() <= 8192;
+        (kind.into(), format!("mixed depth {d} ({} bytes)", text.len()), single(text), in_bounds)
+      }
     }
     _ => unreachable!(),
   }
@@ -150,6 +183,17 @@ fn parse_replay(text: &str) -> Vec<(String, String)> {
   mods
 }
 
+/// the CLI and the language server always compile user modules together with the standard
+/// library (`collect_sources`): add every std module the case does not itself provide
+fn with_std(mut mods: Vec<(String, String)>, corpus: &Corpus) -> Vec<(String, String)> {
+  for (n, t) in &corpus.std {
+    if !mods.iter().any(|(m, _)| m == n) {
+      mods.push((n.clone(), t.clone()));
+    }
+  }
+  mods
+}
+
 fn worker(ctx: WorkerCtx) {
   let corpus = Corpus::load();
   let total = total_cases(&ctx.tier);
@@ -157,11 +201,13 @@ fn worker(ctx: WorkerCtx) {
   while i < total {
     if ctx.mine(i) {
       let (kind, desc, mods, in_bounds) = gen_case(ctx.seed, i, &corpus);
+      let n_own = mods.len();
+      let mods = with_std(mods, &corpus);
       ctx.begin(i, &format!("{kind} {desc}"));
       let t0 = std::time::Instant::now();
       // pipeline on a thread with the default main-thread stack size of the CLI (8 MiB)
       let mods2 = mods.clone();
-      let first_pass = std::thread::Builder::new().stack_size(8 << 20).spawn(move || vcore::pipeline::run(&mods2, false, true)).unwrap().join();
+      let first_pass = std::thread::Builder::new().stack_size(8 << 20).spawn(move || vcore::pipeline::run_own(&mods2, n_own, false, true)).unwrap().join();
       let rep = match first_pass {
         Ok(r) => r,
         Err(_) => {
@@ -231,6 +277,20 @@ fn main() {
   }
   let tier = args.get(1).cloned().unwrap_or_else(|| env_tier("quick"));
   let seed = env_seed();
+  if let Some(p) = args.iter().position(|a| a == "--minimise") {
+    let text = std::fs::read_to_string(&args[p + 1]).expect("file");
+    let mods = parse_replay(&text);
+    pool::install_hook();
+    let rep = vcore::pipeline::run(&mods, true, true);
+    let Some((st, m)) = rep.panic else {
+      println!("no panic");
+      return;
+    };
+    let want = panic_signature(&st, &m);
+    let min = vcore::ddmin::minimise_modules(&mods, &mut |c| matches!(&vcore::pipeline::run(c, true, true).panic, Some((s2, m2)) if panic_signature(s2, m2) == want), 4000);
+    println!("# {want}\n{}", render_modules(&min));
+    return;
+  }
   if let Some(p) = args.iter().position(|a| a == "--replay") {
     let text = std::fs::read_to_string(&args[p + 1]).expect("replay file");
     let mods = parse_replay(&text);
@@ -248,7 +308,8 @@ fn main() {
     stall: Duration::from_secs(if thorough { 120 } else { 60 }),
     overall: Duration::from_secs(if thorough { 3000 } else { 900 }),
     extra: vec![],
-    env: vec![],
+    // 16 worker processes: keep rayon small per process (still multi-threaded)
+    env: vec![("RAYON_NUM_THREADS".into(), "2".into())],
     max_deaths_per_shard: 200,
   };
   let (res, timed_out) = pool::drive(&opts);
@@ -261,6 +322,8 @@ fn main() {
   let mut nt: BTreeSet<String> = BTreeSet::new();
   let (mut reached_checker, mut formatted, mut compiled_ok, mut compiled_err, mut accepted) = (0u64, 0u64, 0u64, 0u64, 0u64);
   let mut slowest = (0u64, String::new());
+  let mut seen_sigs: BTreeSet<String> = BTreeSet::new();
+  pool::install_hook();
   for v in &res.events {
     if v.get("t").and_then(|t| t.as_str()) != Some("r") {
       continue;
@@ -298,7 +361,25 @@ fn main() {
     }
     if let Some(p) = v.get("panic") {
       let (stage, msg) = (p["stage"].as_str().unwrap_or(""), p["msg"].as_str().unwrap_or(""));
-      run.violation(panic_signature(stage, msg), format!("panic in {stage}: {msg} [{kind} {}]", p["desc"].as_str().unwrap_or("")), p["input"].as_str().unwrap_or("").to_string());
+      let sig = panic_signature(stage, msg);
+      let input = p["input"].as_str().unwrap_or("").to_string();
+      let replay = if seen_sigs.insert(sig.clone()) {
+        // first example of this signature: delta-debug it (modules, lines, tokens)
+        let mods = parse_replay(&input);
+        let want = sig.clone();
+        let min = vcore::ddmin::minimise_modules(
+          &mods,
+          &mut |c| {
+            let r = vcore::pipeline::run(c, true, true);
+            matches!(&r.panic, Some((st, m)) if panic_signature(st, m) == want)
+          },
+          1500,
+        );
+        format!("minimised input:\n{}\noriginal input:\n{}", render_modules(&min), input)
+      } else {
+        input
+      };
+      run.violation(sig, format!("panic in {stage}: {msg} [{kind} {}]", p["desc"].as_str().unwrap_or("")), replay);
     }
     if let Some(s) = v.get("silent") {
       let what = s["what"].as_array().map(|a| a.iter().map(|x| x.as_str().unwrap_or("").to_string()).collect::<Vec<_>>().join(" | ")).unwrap_or_default();
@@ -317,6 +398,7 @@ fn main() {
       continue;
     };
     let (kind, desc, mods, in_bounds) = gen_case(seed, case, &corpus);
+    let mods = with_std(mods, &corpus);
     let overflow = d.stderr_tail.contains("overflowed its stack") || d.how.contains("signal 11") || d.how.contains("signal 6") && d.stderr_tail.contains("stack");
     if d.hang {
       // re-run alone with a 100x larger budget before calling it a hang
